@@ -20,7 +20,8 @@ LOADER = {
 COLS = {"events": "f", "labeled_events": "fs", "intervals": "ff", "labeled_intervals": "ffs",
         "valued_intervals": "fff", "time_series": "ff", "key": "ss", "tempo": "fff"}
 DELIMS = {"ws": None, "ws_explicit": r"\s+", "tab": "\t", "comma": ",", "semi": ";"}
-COMMENTS = ["#", "#", "#", "%", "//", None]
+COMMENTS = ["#", "#", "#", "%", "//", None, "[#%]", "#|;;"]  # the argument is documented as a regular expression
+COMMENT_STARTS = {"[#%]": ("#", "%"), "#|;;": ("#", ";;")}
 
 # --------------------------------------------------------------------------------------
 # number grammar and exact conversion
@@ -172,7 +173,7 @@ def refparse(fmt, text, delim_kind="ws", comment="#"):
     cols = None if fmt == "ragged" else COLS[fmt]
     rows, bad, unspec = [], set(), None
     for ln, line in enumerate(lines, 1):
-        if comment is not None and line.startswith(comment):
+        if comment is not None and line.startswith(COMMENT_STARTS.get(comment, comment)):
             continue
         s = _strip(line)
         if cols is None:
@@ -565,7 +566,7 @@ def render(rng, fmt, rows, style):
         pad_ok = style["delim"] in ("ws", "ws_explicit")
         for r in rows:
             if cm is not None and rng.random() < 0.12:
-                lines.append(cm + rng.choice(["", " comment", " 1.0 2.0 x", "\ttab", " é"]))
+                lines.append(rng.choice(COMMENT_STARTS.get(cm, (cm,))) + rng.choice(["", " comment", " 1.0 2.0 x", "\ttab", " é"]))
             if fmt == "ragged":
                 toks = [fmt_float(r[0], rng.choice(FLOAT_STYLES))] + [fmt_float(v, rng.choice(FLOAT_STYLES)) for v in r[1]]
             else:
@@ -579,7 +580,7 @@ def render(rng, fmt, rows, style):
                 line = line + rng.choice([" ", "\t", "  "])
             lines.append(line)
         if cm is not None and rng.random() < 0.15:
-            lines.append(cm + " trailing comment")
+            lines.append(rng.choice(COMMENT_STARTS.get(cm, (cm,))) + " trailing comment")
     text = eol.join(lines)
     if lines and style["final_newline"]:
         text += eol
